@@ -235,7 +235,7 @@ class Emitter:
 
 
 class _Gear:
-    """Stands in for vidgear VideoGear: two frames, then it waits to be stopped."""
+    """Stands in for vidgear VideoGear: a frame per millisecond until it is stopped (at most 3000)."""
 
     def __init__(self, source=None, **kw):
         self.stream  = types.SimpleNamespace(framerate=1000.0)  # file sources are paced to their frame rate
@@ -249,12 +249,10 @@ class _Gear:
         self.stopped.set()
 
     def read(self):
-        if self.n < 2 and not self.stopped.is_set():
+        if self.n < 3000 and not self.stopped.wait(0.001):
             self.n += 1
 
             return np.zeros((2, 2, 3), np.uint8)
-
-        self.stopped.wait(2)
 
         return None
 
@@ -439,6 +437,11 @@ def execute(case):
         if out['status'] == 'ok' and case['filter'] == 'VideoIn' and case['field'] == 'sources' and \
                 case['scheme'] in ('rtsp', 'rtmp', 'http', 'https'):
             metas = []
+            vin   = sys.modules['openfilter.filter_runtime.filters.video_in']
+            real  = (vin.time_ns, vin.sleep)
+
+            # the reader's clock runs 1000 x faster (maxfps / file pacing would otherwise cost 0.1 - 0.2 s of real time per case)
+            vin.time_ns, vin.sleep = (lambda: real[0]() * 1000), (lambda sec: real[1](sec / 1000))
 
             with capture_logs() as msgs, fake_vidgear():
                 try:
@@ -458,8 +461,10 @@ def execute(case):
 
                             vid.thread.join(3)
 
-                except Exception as exc:
+                except (Exception, SystemExit) as exc:  # Filter.exit() raises a SystemExit subclass
                     out['status'] = f'setup-rejected: {type(exc).__name__}'
+                finally:
+                    vin.time_ns, vin.sleep = real
 
             out['sinks']['video-log'] = list(msgs)
             out['sinks']['meta-src']  = metas
@@ -478,7 +483,7 @@ def execute(case):
                     finally:
                         inst.shutdown()
 
-                except Exception as exc:
+                except (Exception, SystemExit) as exc:
                     out['status'] = f'setup-rejected: {type(exc).__name__}'
 
             out['sinks']['video-log'] = list(msgs)
@@ -612,6 +617,9 @@ def judge(case, res):
                 f'{line if len(line) < 400 else line[:200] + " ... " + line[-180:]}')
 
     for src in sinks.get('meta-src', ()):
+        if src.startswith(FILE_SRC):  # the credential-free file source of the filter-wide option cases
+            continue
+
         if not src.startswith(f'{case["scheme"]}://') or not any(h in src for h in res['hosts']):
             add('C15/meta-src-unreadable', f"meta['src'] = {src!r} does not show scheme and host")
 
